@@ -166,22 +166,35 @@ example : ∃ r, applyGalois nv_kl (c06y_nvL1 .bgv) .bgv c06y_nvCt2 3 nv_kskey =
     c06y_nv_keyok c06y_nvCt2_valid rfl ⟨fun _ h => Scheme.noConfusion h, fun _ => rfl⟩ (g := 3) (by decide) (by decide)
   ⟨r, h, v⟩
 
-/-! ### Y4: the size bound is enforced by `ctValid` only -/
+/-! ### Y4: the size bound is enforced by the multiplications themselves (as `Ciphertext::resize` does in the code) -/
 
-/-- Y4 (model vs code): the product of two VALID size-9 ciphertexts is NOT refused by the model — it returns 17 canonical
-    polynomials, an object `ctValid` rejects.  The Rust code panics in `Ciphertext::resize` ("Size invalid") before computing
-    anything, so the model is more permissive than the code here; validity of the result needs `n1 + n2 − 1 ≤ 16`
-    (`ctMultiplyDyadic_valid`). -/
-theorem ctMultiplyDyadic_oversize_not_refused :
-    ∃ r, ctMultiplyDyadic (c06y_nvL .ckks) c06y_nvBig c06y_nvBig = .ok r ∧ r.polys.size = 17 ∧
-      c05u_CtCanon (c06y_nvL .ckks) r ∧ ctValid (c06y_nvL .ckks) r false false = false := by
-  obtain ⟨r, hr, sr, _, _, cr, hiff⟩ := ctMultiplyDyadic_valid (c06y_nvL_qs .ckks) c06y_nvBig_valid c06y_nvBig_valid rfl rfl
-    (by decide) (by decide)
+/-- Y4 (model = code): the product of two VALID size-9 ciphertexts is REFUSED by the model — 9 + 9 − 1 = 17 > 16 =
+    `HE_CIPHERTEXT_SIZE_MAX` (the regenerated constant).  The Rust code panics in `Ciphertext::resize`
+    ("[Invalid argument] Size invalid.") before computing anything; the model refuses at the same place.
+    (Before the model carried the size check this was `ctMultiplyDyadic_oversize_not_refused`.) -/
+theorem ctMultiplyDyadic_oversize_refused :
+    ctValid (c06y_nvL .ckks) c06y_nvBig false false = true ∧ c06y_nvBig.polys.size = 9 ∧
+    ctMultiplyDyadic (c06y_nvL .ckks) c06y_nvBig c06y_nvBig = .error .refused ∧
+    bgvMultiply (c06y_nvL .ckks) c06y_nvBig c06y_nvBig = .error .refused := by
   have s9 : c06y_nvBig.polys.size = 9 := by simp [c06y_nvBig]
-  rw [s9] at sr hiff
-  refine ⟨r, hr, sr, cr, ?_⟩
-  cases h : ctValid (c06y_nvL .ckks) r false false
-  · rfl
-  · exact absurd (hiff.mp h) (by decide)
+  exact ⟨c06y_nvBig_valid, s9, ctMultiplyDyadic_refuse_oversize _ _ _ (by rw [s9]; decide),
+    bgvMultiply_refuse_oversize _ _ _ (by rw [s9]; decide)⟩
+
+/-- the valid-or-refused theorem is not vacuous on either side: 9 × 9 is refused (above), 9 × 8 lands on the maximum and is valid -/
+example : ∃ r, ctMultiplyDyadic (c06y_nvL .ckks) c06y_nvBig { c06y_nvBig with polys := c06y_nvBig.polys.pop } = .ok r ∧
+    r.polys.size = 16 := by
+  have s9 : c06y_nvBig.polys.size = 9 := by simp [c06y_nvBig]
+  have hv8 : ctValid (c06y_nvL .ckks) { c06y_nvBig with polys := c06y_nvBig.polys.pop } false false = true := by
+    have v := c06y_valid_parts c06y_nvBig_valid
+    refine c06y_valid_mk (Or.inr (by simp [c06y_nvBig])) (fun k hk => ?_) v.scale v.cf
+    have hk' : k < 8 := by simpa [c06y_nvBig] using hk
+    have := v.canon k (by rw [s9]; omega)
+    have e : (c06y_nvBig.polys.pop).getD k #[] = c06y_nvBig.polys.getD k #[] := by
+      simp [c06y_nvBig, Array.getD, hk', (by omega : k < 9)]
+    show RnsCanon _ ((c06y_nvBig.polys.pop).getD k #[])
+    rw [e]; exact this
+  obtain ⟨r, hr, sr, _⟩ := ctMultiplyDyadic_valid (c06y_nvL_qs .ckks) c06y_nvBig_valid hv8 rfl rfl (by simp [c06y_nvBig])
+    (by simp [c06y_nvBig]) (by simp [c06y_nvBig])
+  exact ⟨r, hr, by rw [sr]; simp [c06y_nvBig]⟩
 
 end HC
